@@ -336,3 +336,33 @@ Proof.
   rewrite Es. field. exact Hl0.
 Qed.
 End Generic.
+
+(* ------------------------------------------------------------------ *)
+(* Part III: the rational identity by complete enumeration (l <= 10) over the exact rationals,        *)
+(* transported to the reals                                                                           *)
+(* ------------------------------------------------------------------ *)
+(* computation-friendly form of HGH (the coefficients h_c computed once) *)
+Section Fast.
+Context {F : Type} (K : Fops F).
+Definition HGHf (l m : nat) (sine : bool) (comps : list comp) : F :=
+  let hs := map (hcoef K l m sine) comps in
+  let ch := combine comps hs in
+  FNum.fsum K (map (fun p => FNum.fsum K (map (fun p' =>
+     fmul K (fmul K (snd p) (Gk K (fst p) (fst p'))) (snd p')) ch)) ch).
+
+Lemma combine_map_self {A B} (f : A -> B) (l : list A) : combine l (map f l) = map (fun x => (x, f x)) l.
+Proof. induction l as [|a l IH]; cbn [map combine]; [reflexivity|]. now rewrite IH. Qed.
+
+Lemma HGHf_eq l m sine comps : HGHf l m sine comps = HGH K l m sine comps.
+Proof.
+  unfold HGHf, HGH. cbv zeta. rewrite combine_map_self, map_map. f_equal. apply map_ext. intro c.
+  rewrite map_map. reflexivity.
+Qed.
+
+(* rad_q / (2l-1)!! * sum_cc' h_c G(c,c') h_c' on the default Cartesian order *)
+Definition Eorth (l m : nat) (sine : bool) : F :=
+  fmul K (fdiv K (hrad K l m) (fdf_odd K l)) (HGH K l m sine (default_comps l)).
+Definition Eorthf (l m : nat) (sine : bool) : F :=
+  fmul K (fdiv K (hrad K l m) (fdf_odd K l)) (HGHf l m sine (default_comps l)).
+End Fast.
+
